@@ -34,7 +34,8 @@ def explainA (ms : List Match) (cs : List CapEv) (inc : Option TSRange) : String
   let extra := cs.filter fun e => !tm.contains e.triple
   let missing := evs.filter fun e => !tc.contains e.triple
   if !extra.isEmpty then
-    s!"extra-capture n={extra.length} first=({extra.head!.pat},{extra.head!.cap.idx},{extra.head!.cap.node})"
+    let kind := "extra-capture"
+    s!"{kind} n={extra.length} first=({extra.head!.pat},{extra.head!.cap.idx},{extra.head!.cap.node})"
   else if !missing.isEmpty then
     if missing.all isEmptyNode then s!"missing-empty-node n={missing.length}"
     else s!"missing-capture n={missing.length} first=({missing.head!.pat},{missing.head!.cap.idx},{missing.head!.cap.node})"
